@@ -81,7 +81,11 @@ package graphql
 //@   ghost approved *Selection            // C19: the selection whose own directives were evaluated and allow it
 //@   call ShouldIncludeNode assert arg0 == selection.Directives
 //@   call ShouldIncludeNode ghost approved = ite(ret0 && ret1 == nil, selection, nil)
-//@   call newOutputNode assert approved == selection
+//@   call newOutputNode assert approved == selection && arg0 == topLevelRespWriter && arg1 == selection.Alias
+// C01: every top-level selection - a field or __typename - is written under its own alias, the root __typename with the
+// name of the query / mutation object
+//@   call mapupdate assert arg1 == selection.Alias && arg2 == writer
+//@   call outputNode.Fill assert arg0 == writer && arg1 == any(queryObject.Name)
 // C14: validation (PrepareQuery, call PrepareQuery#2 assert) accepts at an object exactly __typename and the object's
 // fields, so the "invalid top-level selection" error may only be reached for a name validation rejects as well
 //@   call Errorf#2 assert selection.Name != "__typename" && !(selection.Name in queryObject.Fields)
